@@ -585,7 +585,9 @@ class StepProbe:
         from classy_blocks.lists.vertex_list import VertexList
 
         for cls, name in ((VertexList, "add"), (EdgeList, "add_from_operation"), (BlockList, "add"), (PatchList, "add"), (FaceList, "add")):
-            orig = getattr(cls, name)
+            orig = getattr(cls, name, None)
+            if orig is None:
+                continue
 
             def wrapped(obj, *a, _orig=orig, **k):
                 self.count += 1
